@@ -83,8 +83,3 @@ func (in *interp) doSelect(fr *frame, instr *ssa.Select) value {
 	panic(in.unsupported("select statement"))
 }
 
-type diamond struct{}
-
-func (in *interp) tryIfConvert(fr *frame, instr *ssa.If, c Sym) (value, bool) {
-	return nil, false
-}
